@@ -549,7 +549,7 @@ func (m *Machine) WhenErr(disposeCtx context.Context) <-chan struct{} {
 //
 // ctx: optional context that will close the channel early.
 func (m *Machine) When(states S, ctx context.Context) <-chan struct{} {
-	if m.disposed.Load() {
+	if m.disposing.Load() {
 		return m.subs.Closed
 	}
 
@@ -717,7 +717,7 @@ func (m *Machine) WhenQueue(tick Result) <-chan struct{} {
 func (m *Machine) WhenArgs(
 	state string, args A, ctx context.Context,
 ) <-chan struct{} {
-	if m.disposed.Load() {
+	if m.disposing.Load() {
 		return m.subs.Closed
 	}
 
